@@ -19,6 +19,7 @@ func init() {
 }
 
 func runC06(c *Ctx) {
+	defer checkContextPropagated(c, "C06.R8")
 	defer checkConfigGetters(c, "C06.R7", "GetTokenEntropy", "GetGlobalSecret", "GetRotatedGlobalSecrets", "GetHMACHasher")
 	c06R1(c)
 	c06Strategies(c)
@@ -30,6 +31,7 @@ func runC06(c *Ctx) {
 	c06MintedKeys(c)
 	c06SecretLength(c)
 	c06PARURI(c)
+	c06PrefixExact(c)
 }
 
 func c06R1(c *Ctx) {
@@ -231,6 +233,26 @@ func c06Generate(c *Ctx) {
 			// ... and for at least the configured entropy: the amount is the configured value, or the
 			// floor on a path where the configured value is known to be below the floor
 			cfgEnt := func(s *Term) bool { return s.IsCall(".GetTokenEntropy") }
+			// the configured value is a byte count and is used as it is: not divided, multiplied or offset
+			scaled := false
+			a.Walk(func(s *Term) bool {
+				if s.Op == "bin" && len(s.Args) == 2 && (s.Args[0].Mentions(cfgEnt) || s.Args[1].Mentions(cfgEnt)) {
+					scaled = true
+				}
+				return true
+			})
+			for _, f := range p.Facts[:min(rb.NFacts, len(p.Facts))] {
+				for _, side := range []*Term{f.Atom.A, f.Atom.B} {
+					if side != nil && side.Op == "bin" && side.Name != "<" && len(side.Args) == 2 && (side.Args[0].Mentions(cfgEnt) || side.Args[1].Mentions(cfgEnt)) {
+						if _, isK := side.Args[1].IntConst(); isK && (side.Name == "/" || side.Name == "*" || side.Name == ">>" || side.Name == "<<") {
+							scaled = true
+						}
+					}
+				}
+			}
+			if scaled {
+				okCfg, wCfg = false, p
+			}
 			if !a.Mentions(cfgEnt) {
 				below := false
 				for _, f := range p.Facts[:min(rb.NFacts, len(p.Facts))] {
